@@ -173,6 +173,99 @@ def extract_constants(src: str) -> dict:
     out['month'] = list(month.items())
     out['version_slice_start'] = sl[0]
     out['version_slice_drop_end'] = -sl[1]
+    # ---- the guard of the banner test: `line[:N] == prefix and self.lammps_version is None`
+    guard = None
+    for node in ast.walk(loop):
+        if isinstance(node, ast.If) and 'LAMMPS' in ast.unparse(node.test) and '__read_lammps_version' in ast.unparse(node):
+            t = node.test
+            if isinstance(t, ast.Compare):
+                guard = False
+            elif isinstance(t, ast.BoolOp) and isinstance(t.op, ast.And) and len(t.values) == 2 \
+                    and isinstance(t.values[0], ast.Compare) \
+                    and ast.unparse(t.values[1]) in ('self.lammps_version is None', 'self.__lammps_version is None'):
+                guard = True
+            else:
+                raise TranslationError(f'version banner guard `{ast.unparse(t)}` has an unexpected shape')
+    if guard is None:
+        raise TranslationError('`if line[:N] == prefix ...: self.__read_lammps_version(line)` not found')
+    out['version_only_if_unset'] = guard
+    # ---- `if append is False:` resets
+    resets = None
+    for node in read.body:
+        if isinstance(node, ast.If) and ast.unparse(node.test) in ('append is False', 'not append', 'append == False'):
+            if node.orelse:
+                raise TranslationError('`if append is False:` has an else branch')
+            resets = {}
+            for st in node.body:
+                if not (isinstance(st, ast.Assign) and len(st.targets) == 1):
+                    raise TranslationError('`if append is False:` body is not a list of plain assignments')
+                resets[ast.unparse(st.targets[0])] = ast.unparse(st.value)
+    if resets is None:
+        raise TranslationError('`if append is False:` not found at the top of Log.read')
+    want = {'self.__simulations': '[]', 'self.__lammps_version': 'None', 'self.__lammps_date': 'None'}
+    for k, v in resets.items():
+        if k not in want or v != want[k]:
+            raise TranslationError(f'`if append is False:` assigns {k} = {v}')
+    out['reset_simulations'] = 'self.__simulations' in resets
+    out['reset_version'] = 'self.__lammps_version' in resets
+    out['reset_date'] = 'self.__lammps_date' in resets
+    # ---- the table reads: for header, footer in zip(thermo_headers, thermo_footers): self.__read_thermo(log_info, header, footer)
+    zips = [n for n in ast.walk(read) if isinstance(n, ast.For)
+            and ast.unparse(n.iter) == 'zip(thermo_headers, thermo_footers)' and ast.unparse(n.target) in ('header, footer', '(header, footer)')]
+    if len(zips) != 1 or len(zips[0].body) != 1 \
+            or ast.unparse(zips[0].body[0]) != 'self.__read_thermo(log_info, header, footer)':
+        raise TranslationError('`for header, footer in zip(thermo_headers, thermo_footers): self.__read_thermo(log_info, '
+                               'header, footer)` not found')
+    rt = get_function(src, '__read_thermo')
+    if [a.arg for a in rt.args.args] != ['self', 'log_info', 'header', 'footer']:
+        raise TranslationError('__read_thermo signature changed')
+    calls = [n for n in ast.walk(rt) if isinstance(n, ast.Call) and ast.unparse(n.func) == 'pd.read_csv']
+    if len(calls) != 1:
+        raise TranslationError('__read_thermo: expected exactly one pd.read_csv call')
+    c = calls[0]
+    if len(c.args) != 1 or ast.unparse(c.args[0]) != 'log_info':
+        raise TranslationError('__read_thermo: pd.read_csv is not called on log_info')
+    kw = {k.arg: k.value for k in c.keywords}
+    expect = {'header': 'header', 'nrows': 'footer - header', 'skip_blank_lines': 'True'}
+    for k, v in expect.items():
+        if k == 'skip_blank_lines' and k not in kw:
+            continue
+        if k not in kw or ast.unparse(kw[k]) != v:
+            raise TranslationError(f'__read_thermo: pd.read_csv option {k} is not `{v}`')
+    if not ('sep' in kw and isinstance(kw['sep'], ast.Constant) and kw['sep'].value == '\\s+'):
+        raise TranslationError("__read_thermo: pd.read_csv option sep is not r'\\s+'")
+    extra = set(kw) - {'header', 'nrows', 'skip_blank_lines', 'sep'}
+    if extra:
+        raise TranslationError(f'__read_thermo: unexpected pd.read_csv options {sorted(extra)}')
+    appends_thermo = [n for n in ast.walk(rt) if isinstance(n, ast.Call) and ast.unparse(n.func) == 'self.__simulations.append']
+    if len(appends_thermo) != 1 or ast.unparse(appends_thermo[0].args[0]) != 'Simulation(thermo=thermo)':
+        raise TranslationError('__read_thermo does not append Simulation(thermo=thermo) to self.__simulations')
+    # ---- flatten: the two row filters
+    fl = get_function(src, 'flatten')
+    OPS = {ast.Gt: '>', ast.GtE: '≥', ast.Lt: '<', ast.LtE: '≤', ast.Eq: '=', ast.NotEq: '≠'}
+    first = last = None
+    for node in ast.walk(fl):
+        if isinstance(node, ast.Compare) and len(node.ops) == 1 and type(node.ops[0]) in OPS:
+            l, r = ast.unparse(node.left), ast.unparse(node.comparators[0])
+            if (l, r) == ('thermo.Step', 'merged_df.Step.max()'):
+                if first is not None:
+                    raise TranslationError('flatten: two `thermo.Step ? merged_df.Step.max()` filters')
+                first = OPS[type(node.ops[0])]
+            if (l, r) == ('merged_df.Step', 'thermo.Step.min()'):
+                if last is not None:
+                    raise TranslationError('flatten: two `merged_df.Step ? thermo.Step.min()` filters')
+                last = OPS[type(node.ops[0])]
+    if first is None or last is None:
+        raise TranslationError('flatten: the filters `thermo.Step > merged_df.Step.max()` / `merged_df.Step < '
+                               'thermo.Step.min()` were not found')
+    src_fl = ast.unparse(fl)
+    for frag in ("pd.concat([merged_df, thermo[thermo.Step", "pd.concat([merged_df[merged_df.Step",
+                 "pd.concat([merged_df, thermo], ignore_index=True)", "self.simulations[firstindex:lastindex]",
+                 "merged_df = simulations[0].thermo", "for sim in simulations[1:]:"):
+        if frag not in src_fl:
+            raise TranslationError(f'flatten: `{frag}…` not found')
+    out['first_keep_op'] = first
+    out['last_keep_op'] = last
     return out
 
 
@@ -203,6 +296,18 @@ def translate():
                      ('performance_footer_offset', 'perfFooterOffset')):
         v = c[py]
         L.append(f'def {lean} : Int := {v if v >= 0 else "(" + str(v) + ")"}')
+    L.append('')
+    b = lambda x: 'true' if x else 'false'  # noqa
+    L.append('/-- `if line[:N] == prefix and self.lammps_version is None:` — is the second conjunct there -/')
+    L.append(f'def versionOnlyIfUnset : Bool := {b(c["version_only_if_unset"])}')
+    L.append('/-- what `if append is False:` resets -/')
+    L.append(f'def resetSimulations : Bool := {b(c["reset_simulations"])}')
+    L.append(f'def resetVersion : Bool := {b(c["reset_version"])}')
+    L.append(f'def resetDate : Bool := {b(c["reset_date"])}')
+    L.append('/-- `thermo[thermo.Step ? merged_df.Step.max()]` (style first) -/')
+    L.append(f'def firstKeep (step mx : Int) : Bool := decide (step {c["first_keep_op"]} mx)')
+    L.append('/-- `merged_df[merged_df.Step ? thermo.Step.min()]` (style last) -/')
+    L.append(f'def lastKeep (step mn : Int) : Bool := decide (step {c["last_keep_op"]} mn)')
     L.append('')
     L.append('end Atomman.Gen.Log')
     return {'LogTriggers': '\n'.join(L) + '\n'}
